@@ -54,7 +54,7 @@ ENUM_METHODS = {("PictureTypeCode", "is_disposable"): "is_disposable", ("Macrobl
 VLC_TABLES = {"MCBPC_I_TABLE": ("mcbpc_i_table", "BlockPatternEntry"), "MCBPC_P_TABLE": ("mcbpc_p_table", "BlockPatternEntry"),
               "MODB_TABLE": ("modb_table", ("tup", ("bool", "bool"))), "CBPY_TABLE_INTRA": ("cbpy_table_intra", ("opt", ("list", "bool"))),
               "MVD_TABLE": ("mvd_table", ("opt", "HalfPel")), "TCOEF_TABLE": ("tcoef_table", ("opt", "ShortTCoefficient"))}
-COQ_OF_TYPE = {"Plane": "plane", "H263State": "state", "PictureMap": "pmap", "DecodedPicture": "decoded_picture", "TCoefficient": "tcoef", "Block": "block", "ShortTCoefficient": "short_tcoef", "IntraDc": "Z",
+COQ_OF_TYPE = {"fmat": "(list (list Z))", "frow": "(list Z)", "f32z": "Z", "Plane": "plane", "H263State": "state", "PictureMap": "pmap", "DecodedPicture": "decoded_picture", "TCoefficient": "tcoef", "Block": "block", "ShortTCoefficient": "short_tcoef", "IntraDc": "Z",
                "DecodedDctBlock": "dct_block", "MacroblockType": "mbtype", "BlockPatternEntry": "bpe", "Macroblock": "macroblock", "HalfPel": "Z", "MotionVector": "(Z * Z)", "CodedBlockPattern": "cbp",
                "SourceFormat": "source_format", "PictureTypeCode": "ptype_code", "PixelAspectRatio": "par_t",
                "MotionVectorRange": "mvrange", "BPictureQuantizer": "Z"}
@@ -281,8 +281,13 @@ class PEmitter:
                     tgt = tgt[1]
                 if tgt[0] == "var":
                     acc.add(tgt[1])
-                if tgt[0] == "index" and tgt[1][0] == "var":
-                    acc.add(tgt[1][1])
+                base = tgt
+                while base[0] == "index":
+                    base = base[1]
+                if tgt[0] == "index" and base[0] == "var":
+                    acc.add(base[1])
+                if tgt[0] == "un" and tgt[1] == "*" and tgt[2][0] == "var":
+                    acc.add("*" + tgt[2][1])
                 if tgt[0] == "field" and tgt[1] == ("var", "self"):
                     acc.add("self." + tgt[2])
             if node and node[0] == "mcall" and node[1] == ("var", "self") and node[2] == "cleanup_buffers":
@@ -379,6 +384,8 @@ class PEmitter:
                 return k(a, t, env)
             if name in self.known and self.known[name][0] == "static":
                 return k(self.known[name][1], self.known[name][2], env)
+            if name in self.static_lists:
+                return k(self.static_lists[name][0], ("static_list", self.static_lists[name][1]), env)
             raise Untranslatable("unknown variable `%s`" % name)
         if kind == "path":
             return self.path(e, env, k, want)
@@ -418,6 +425,10 @@ class PEmitter:
             return self.struct(e, env, k)
         if kind == "array":
             return self.array_lit(e[1], 0, [], env, k)
+        if kind == "arrayrep" and e[2] == ("int", 8, None) and e[1][0] == "arrayrep" and e[1][2] == ("int", 8, None) and e[1][1][0] == "float" \
+                and float(e[1][1][1]) == 0.0:
+            # [[0.0f32; 8]; 8]: coefficients are integers of magnitude <= 2048, which binary32 holds exactly: the matrix is over Z
+            return k("zero_mat", "fmat", env)
         if kind == "arrayrep" and e[1] == ("call", ("path", ["MotionVector", "zero"]), []) and e[2] == ("int", 4, None):
             return k("mv4_zero", ("mvarr", 4), env)
         if kind == "if":
@@ -453,6 +464,8 @@ class PEmitter:
     # functions of the decoder that are translated / modelled on their own; a call stands for the model's function
     model_fns = {}
     gob_fields = set()
+    static_lists = {}     # constant arrays of the file that the model has as generated tables: name -> (coq name, element type)
+    ret_wrap = None       # inside the body of a `for` with early exits: how a `return` is handed to the loop combinator
     on_demand = None      # callback translating a helper function of the same file when a call of it is met
     loop_vars = None      # inside a `loop` body: the variables that live across iterations (the reader last)
     result_fns = {}       # functions whose Result is matched on rather than propagated with `?`
@@ -473,6 +486,8 @@ class PEmitter:
             ts = [resolve(t) for _, t in acc]
             if all(t == "bool" for t in ts):
                 return k("[" + "; ".join(a for a, _ in acc) + "]", ("list", "bool"), env)
+            if all(t == "f32z" for t in ts):
+                return k("[" + "; ".join(a for a, _ in acc) + "]", "frow", env)
             if all(t == "MotionVector" for t in ts):
                 tup = acc[0][0]
                 for a, _ in acc[1:]:
@@ -487,6 +502,8 @@ class PEmitter:
             ty, name = segs
             if ty == "HalfPel" and name in getattr(self, "halfpel_consts", {}):
                 return k(zlit(self.halfpel_consts[name]), "HalfPel", env)
+            if ty == "DecodedDctBlock" and name == "Zero":
+                return k("DctZero", "DecodedDctBlock", env)
             if ty in FLAGS:
                 return k(self.flag_const(ty, name), ty, env)
             if ty in ENUMS and name in ENUMS[ty]:
@@ -527,6 +544,12 @@ class PEmitter:
 
     def binary(self, e, env, k, want):
         op, l, r = e[1], e[2], e[3]
+        if op in ("==", "!=") and r[0] == "float" and float(r[1]) == 0.0:
+            def cmpz(a, t, env):
+                if resolve(t) != "f32z":
+                    raise Untranslatable("float comparison on %r" % (t,))
+                return k("(%s =? 0)" % a if op == "==" else "(negb (%s =? 0))" % a, "bool", env)
+            return self.expr(l, env, cmpz)
         if op == "&" and r[0] == "un" and r[1] == "!":
             return self.expr(l, env, lambda a, ta, env: self.expr(r[2], env, lambda b, tb, env:
                              (k("(Z.ldiff %s %s)" % (a, b), ta, env) if self.is_flags(resolve(ta)) and self.is_flags(resolve(tb)) else self.bad("`& !` on non-flags"))))
@@ -606,14 +629,29 @@ class PEmitter:
                 return k("(%s %s)" % (e[2], a), self.norm_field(ft[e[2]]), env)
             if isinstance(t, tuple) and t[0] == "tup" and e[2].isdigit() and len(t[1]) == 2:
                 return k("(%s %s)" % ("fst" if e[2] == "0" else "snd", a), t[1][int(e[2])], env)
+            if t == "Block" and e[2] in ("tcoef", "intradc"):
+                return k("(%s %s)" % ({"tcoef": "tcoefs", "intradc": "intradc"}[e[2]], a), ("list", "TCoefficient") if e[2] == "tcoef" else ("opt", "IntraDc"), env)
+            if t == "TCoefficient" and e[2] in ("run", "level", "is_short"):
+                return k("(%s %s)" % ({"run": "t_run", "level": "t_level", "is_short": "is_short"}[e[2]], a), {"run": "u8", "level": "i16", "is_short": "bool"}[e[2]], env)
             if t == "CodedBlockPattern" and e[2] in ("codes_luma", "codes_chroma_b", "codes_chroma_r"):
                 return k("(%s %s)" % (e[2], a), ("boolarr", 4) if e[2] == "codes_luma" else "bool", env)
             raise Untranslatable("field access .%s on %r" % (e[2], t))
         return self.expr(e[1], env, after)
 
     def index(self, e, env, k):
+        # m[y][x] / m[y] on the 8x8 matrix with literal indices
+        if e[1][0] == "index" and e[1][1][0] == "var" and e[1][1][1] in env and resolve(env[e[1][1][1]][1]) == "fmat" \
+                and e[2][0] == "int" and e[1][2][0] == "int" and 0 <= e[2][1] < 8 and 0 <= e[1][2][1] < 8:
+            return k("(mat_get %s %d %d)" % (env[e[1][1][1]][0], e[2][1], e[1][2][1]), "f32z", env)
+        if e[1][0] == "var" and e[1][1] in env and resolve(env[e[1][1]][1]) == "fmat" and e[2][0] == "int" and 0 <= e[2][1] < 8:
+            return k("(nth %d %s [])" % (e[2][1], env[e[1][1]][0]), "frow", env)
         def on_base(a, t, env):
             t = resolve(t)
+            if isinstance(t, tuple) and t[0] == "static_list":
+                def on_sidx(i, ti, env):
+                    v = self.fresh("e")
+                    return "let* %s := get %s %s in\n  %s" % (v, a, i, k(v, t[1], env))
+                return self.expr(e[2], env, on_sidx, "usize")
             if isinstance(t, tuple) and t[0] == "boolarr" and e[2][0] == "int" and 0 <= e[2][1] < t[1]:
                 # a literal index into a fixed-size array cannot go out of bounds
                 return k("(nth %d %s false)" % (e[2][1], a), "bool", env)
@@ -776,6 +814,11 @@ class PEmitter:
         if f[0] == "path" and f[1] == ["DecodedPicture", "new"] and len(args) == 2:
             # DecodedPicture::new: the plane sizes are translated and bridged as kernels (BridgeKPicture.v); the model's new_decoded
             return self.expr(args[0], env, lambda a, ta, env: self.expr(args[1], env, lambda b, tb, env: k("(new_decoded %s %s)" % (a, b), ("opt", "DecodedPicture"), env)))
+        if f[0] == "path" and len(f[1]) == 2 and f[1][0] == "DecodedDctBlock" and f[1][1] in ("Dc", "Horiz", "Vert", "Full") and len(args) == 1:
+            ctor = {"Dc": "DctDc", "Horiz": "DctHoriz", "Vert": "DctVert", "Full": "DctFull"}[f[1][1]]
+            return self.expr(args[0], env, lambda a, t, env: k("(%s %s)" % (ctor, a), "DecodedDctBlock", env), "f32z" if f[1][1] == "Dc" else None)
+        if f[0] == "path" and f[1] == ["HashMap", "new"] and not args:
+            return k("[]", "PictureMap", env)
         if f[0] == "path" and f[1] == ["Vec", "new"] and not args:
             return k("[]", ("vec", EVar()), env)
         if f[0] == "path" and f[1] == ["IntraDc", "from_u8"] and len(args) == 1:
@@ -978,6 +1021,8 @@ class PEmitter:
                 t = resolve(t)
                 if t == "u16" and resolve(want) == "usize":
                     return k(a, "usize", env)
+                if t == "i16":
+                    return k(a, "f32z", env)          # i16 -> f32 is exact: the float coefficient is the integer
                 if t == ("tup", ("HalfPel", "HalfPel")):
                     return k(a, "MotionVector", env)
                 if t == "MotionVector":
@@ -1038,6 +1083,23 @@ class PEmitter:
                 return k("(d_header %s)" % a, "Picture", env)
             if t == "DecodedPicture" and name == "format" and not args:
                 return k("(d_format %s)" % a, "SourceFormat", env)
+            if name == "is_empty" and not args and isinstance(t, tuple) and t[0] == "list":
+                return k("(match %s with [] => true | _ => false end)" % a, "bool", env)
+            if name == "iter" and not args and isinstance(t, tuple) and t[0] == "list":
+                return k(a, t, env)
+            if name == "len" and not args and isinstance(t, tuple) and t[0] == "static_list":
+                return k("(zlength %s)" % a, "usize", env)
+            if t == "IntraDc" and name == "into_level" and not args:
+                # IntraDc::into_level is translated and bridged as a kernel (k_intradc_into_level = intradc_level)
+                return k("(intradc_level %s)" % a, "i16", env)
+            if name == "into" and not args and t == "i16" and resolve(want) in (None, "f32z"):
+                # i16 -> f32 is exact (|v| < 2^24): the float coefficient is the integer
+                return k(a, "f32z", env)
+            if name == "abs" and not args and is_int(t):
+                v = self.fresh("t")
+                return "let* %s := abs_c %s %s in\n  %s" % (v, COQTY[t], a, k(v, t, env))
+            if name == "signum" and not args and is_int(t):
+                return k("(Z.sgn %s)" % a, t, env)
             if name == "len" and not args and isinstance(t, tuple) and t[0] == "list":
                 return k("(zlength %s)" % a, "usize", env)
             if name == "capacity" and not args and isinstance(t, tuple) and t[0] == "list" and recv[0] == "var" and (recv[1] + ".capacity") in env:
@@ -1047,8 +1109,16 @@ class PEmitter:
             if name == "saturating_sub" and len(args) == 1 and is_int(t):
                 lo, hi = INTS[t]
                 return self.expr(args[0], env, lambda b, tb, env: k("(clamp %s %s (%s - %s))" % (zlit(lo), zlit(hi), a, b), t, env), t)
-            if name == "clamp" and len(args) == 2 and is_int(t) and all(x[0] == "int" for x in args) and args[0][1] <= args[1][1]:
-                return k("(clamp %s %s %s)" % (zlit(args[0][1]), zlit(args[1][1]), a), t, env)
+            def litv(x):
+                while x[0] == "paren":
+                    x = x[1]
+                if x[0] == "int":
+                    return x[1]
+                if x[0] == "un" and x[1] == "-" and x[2][0] == "int":
+                    return -x[2][1]
+                return None
+            if name == "clamp" and len(args) == 2 and is_int(t) and litv(args[0]) is not None and litv(args[1]) is not None and litv(args[0]) <= litv(args[1]):
+                return k("(clamp %s %s %s)" % (zlit(litv(args[0])), zlit(litv(args[1])), a), t, env)
             if t == "MotionVector" and name == "median_of" and len(args) == 2:
                 # MotionVector::median_of is the component-wise HalfPel::median_of (translated and bridged as a kernel)
                 return self.expr(args[0], env, lambda b, tb, env: self.expr(args[1], env, lambda c, tc, env: k("(mv_median %s %s %s)" % (a, b, c), "MotionVector", env)))
@@ -1130,6 +1200,29 @@ class PEmitter:
         s = ss[i]
         rest = lambda env: self.stmts(ss, i + 1, tail, env, k, want)
         kind = s[0]
+        if kind == "let" and s[1][0] == "pid" and s[3][0] == "mcall" and s[3][2] == "and_then" and len(s[3][3]) == 1 and s[3][3][0][0] == "closure" \
+                and len(s[3][3][0][1]) == 1 and s[3][3][0][1][0][0] == "pid" and "self.reference_states" in env \
+                and s[3][3][0][2] == ("mcall", ("field", ("var", "self"), "reference_states"), "remove_entry", [("ref", ("var", s[3][3][0][1][0][1]))]):
+            # `opt.and_then(|k| self.reference_states.remove_entry(&k))`: the entry of key k, taken out of the map (pm_remove_entry)
+            def on_opt(a, t, env):
+                v, mv, kv = self.fresh(s[1][1]), self.fresh("map"), self.fresh("k")
+                env2 = dict(env)
+                env2[s[1][1]] = (v, ("opt", ("tup", ["u16", "DecodedPicture"])))
+                env2["self.reference_states"] = (mv, env["self.reference_states"][1])
+                m0 = env["self.reference_states"][0]
+                return "let '(%s, %s) := (match %s with Some %s => pm_remove_entry %s %s | None => (None, %s) end) in\n  %s" % (v, mv, a, kv, m0, kv, m0, rest(env2))
+            return self.expr(s[3][1], env, on_opt)
+        if kind == "let" and s[1][0] == "pid" and s[3][0] == "ref" and s[3][1][0] == "index" and s[3][1][1][0] == "var" and s[3][1][1][1] in env \
+                and isinstance(resolve(env[s[3][1][1][1]][1]), tuple) and resolve(env[s[3][1][1][1]][1])[0] == "list" and self.pure:
+            # `let x = &mut v[i];`: the bounds check happens here; later `*x = e` stores into v
+            vname = s[3][1][1][1]
+            def on_i(i, ti, env):
+                env2 = dict(env); env2[s[1][1]] = ("@ELEM@", ("elemref", vname, i))
+                return "let* _ := get %s %s in\n  %s" % (env[vname][0], i, rest(env2))
+            return self.expr(s[3][1][2], env, on_i, "usize")
+        if kind == "let" and s[2] is None and s[1][0] == "pid" and s[3][0] == "int" and s[3][2] is None and self.pure:
+            # `let mut n = 0;`: the literal takes the integer type its later uses demand
+            return self.bind_pat(s[1], zlit(s[3][1]), self.tvar(), env, rest)
         if kind == "let":
             want_t = norm(s[2]) if s[2] is not None else None
             def bound(a, t, env):
@@ -1140,6 +1233,31 @@ class PEmitter:
                     t = self.unify(t, want_t, "let annotation") if not (isinstance(resolve(t), tuple)) else t
                 return self.bind_pat(s[1], a, t, env, rest)
             return self.expr(s[3], env, bound, want_t)
+        if kind == "assign" and s[1][0] == "un" and s[1][1] == "*" and s[1][2][0] == "var" and s[1][2][1] in env \
+                and isinstance(env[s[1][2][1]][1], tuple) and env[s[1][2][1]][1][0] == "elemref" and s[2] == "=":
+            _, vname, idx = env[s[1][2][1]][1]
+            def stored_e(a, t, env):
+                v = self.fresh(vname)
+                env2 = dict(env); env2[vname] = (v, env[vname][1])
+                return "let* %s := set %s %s %s in\n  %s" % (v, env[vname][0], idx, a, rest(env2))
+            return self.expr(s[3], env, stored_e)
+        if kind == "assign" and s[1][0] == "index" and s[1][1][0] == "index" and s[1][1][1][0] == "var" and s[1][1][1][1] in env \
+                and resolve(env[s[1][1][1][1]][1]) == "fmat" and s[2] == "=":
+            # m[y][x] = v on an 8x8 matrix: literal indices cannot go out of bounds, others are checked
+            mname = s[1][1][1][1]
+            ye, xe = s[1][1][2], s[1][2]
+            def on_v(va, vt, env):
+                def on_y(ya, yt, env):
+                    def on_x(xa, xt, env):
+                        v = self.fresh(mname)
+                        env2 = dict(env); env2[mname] = (v, "fmat")
+                        lit = ye[0] == "int" and xe[0] == "int" and 0 <= ye[1] < 8 and 0 <= xe[1] < 8
+                        if lit:
+                            return "let %s := mat_set %s %s %s %s in\n  %s" % (v, env[mname][0], xa, ya, va, rest(env2))
+                        return "let* %s := mat_set_c %s %s %s %s in\n  %s" % (v, env[mname][0], xa, ya, va, rest(env2))
+                    return self.expr(xe, env, on_x, "usize")
+                return self.expr(ye, env, on_y, "usize")
+            return self.expr(s[3], env, on_v)
         if kind == "assign":
             tgt = s[1]
             if tgt[0] == "field" and tgt[1] == ("var", "self") and ("self." + tgt[2]) in env:
@@ -1174,6 +1292,43 @@ class PEmitter:
                 return self.ret(e[1], env)
             if e[0] in ("break", "continue"):
                 return self.expr(e, env, None)
+            if e[0] == "iflet" and e[4] is None and e[1][0] == "pctor" and e[1][1] == ["Some"] and len(e[1][2]) == 1 and e[1][2][0][0] == "pid" \
+                    and not self.has_return(e[3]) and self.pure:
+                upd = sorted(v for v in self.assigned(e[3], set()) if v in env)
+                def on_o(a, t, env):
+                    t = resolve(t)
+                    if not (isinstance(t, tuple) and t[0] == "opt"):
+                        raise Untranslatable("if let Some(..) on %r" % (t,))
+                    x = self.fresh(e[1][2][0][1])
+                    env2 = dict(env); env2[e[1][2][0][1]] = (x, t[1])
+                    tup = lambda envx: "Ok (%s)" % ", ".join(envx[v][0] for v in upd) if len(upd) != 1 else "Ok %s" % envx[upd[0]][0]
+                    body = self.stmts(e[3][1], 0, e[3][2], env2, lambda a2, t2, env3: tup(env3), None)
+                    names = [self.fresh(v) for v in upd]
+                    env4 = dict(env)
+                    for v, nm in zip(upd, names):
+                        env4[v] = (nm, env[v][1])
+                    pat = "(%s)" % ", ".join(names) if len(names) != 1 else names[0]
+                    return "let* %s := (match %s with Some %s => (%s) | None => %s end) in\n  %s" % (pat, a, x, body, tup(env), rest(env4))
+                return self.expr(e[2], env, on_o)
+            if e[0] == "iflet" and e[4] is None and e[1][0] == "pctor" and e[1][1] == ["Some"] and len(e[1][2]) == 1 and e[1][2][0][0] == "ptuple" \
+                    and all(q[0] == "pid" for q in e[1][2][0][1]) and self.assigned(e[3], set()) == {"self.reference_states"} \
+                    and not self.has_return(e[3]) and "self.reference_states" in env:
+                def on_x(a, t, env):
+                    t = resolve(t)
+                    if not (isinstance(t, tuple) and t[0] == "opt" and isinstance(resolve(t[1]), tuple) and resolve(t[1])[0] == "tup"
+                            and len(resolve(t[1])[1]) == len(e[1][2][0][1])):
+                        raise Untranslatable("if let Some((..)) on %r" % (t,))
+                    env2, names = dict(env), []
+                    for q, ti in zip(e[1][2][0][1], resolve(t[1])[1]):
+                        v = self.fresh(q[1]); env2[q[1]] = (v, ti); names.append(v)
+                    cp = names[0]
+                    for nm in names[1:]:
+                        cp = "(%s, %s)" % (cp, nm)
+                    body = self.stmts(e[3][1], 0, e[3][2], env2, lambda a2, t2, env3: env3["self.reference_states"][0], None)
+                    mv = self.fresh("map")
+                    env4 = dict(env); env4["self.reference_states"] = (mv, env["self.reference_states"][1])
+                    return "let %s := (match %s with Some %s => (%s) | None => %s end) in\n  %s" % (mv, a, cp, body, env["self.reference_states"][0], rest(env4))
+                return self.expr(e[2], env, on_x)
             if e[0] == "while":
                 return self.while_stmt(e, env, rest)
             if e[0] == "loop" and self.loop_vars is None and e[1][0] == "block" and e[1][1] and e[1][1][0][0] == "expr" \
@@ -1494,6 +1649,8 @@ class PEmitter:
         """`for (i, (a, b)) in X.iter().zip(Y.iter()).enumerate() { BODY }`: the body becomes a function of the index, the two
         elements and the variables it assigns; the loop is `for_zip_enum` of base/Checked.v (structural recursion on the lists)"""
         pat, it, body = e[1], e[2], e[3]
+        if pat[0] == "pid" and self.pure:
+            return self.for_each_stmt(e, env, rest)
         ok = (it[0] == "mcall" and it[2] == "enumerate" and it[1][0] == "mcall" and it[1][2] == "zip" and len(it[1][3]) == 1
               and it[1][1][0] == "mcall" and it[1][1][2] == "iter" and it[1][3][0][0] == "mcall" and it[1][3][0][2] == "iter"
               and pat[0] == "ptuple" and len(pat[1]) == 2 and pat[1][0][0] == "pid" and pat[1][1][0] == "ptuple"
@@ -1533,6 +1690,56 @@ class PEmitter:
                 return "let* %s := for_zip_enum (fun %s %s %s %s => %s) %s %s 0 %s in\n  %s" % (out, pi, pa, pb, ps, call, la_a, lb_a, env[sv][0], rest(env3))
             return self.expr(lb, env, on_b)
         return self.expr(la, env, on_a)
+
+    def for_each_stmt(self, e, env, rest):
+        """`for x in list.iter() { BODY }` over several local variables, BODY possibly leaving the function with `return`: the body
+        becomes a function `element -> state -> res (state + result)`; the loop is for_each_ret of base/Checked.v"""
+        pat, it, body = e[1], e[2], e[3]
+        def on_l(la, lt, env):
+            lt2 = resolve(lt)
+            if not (isinstance(lt2, tuple) and lt2[0] == "list"):
+                raise Untranslatable("for over %r" % (lt2,))
+            mutated = sorted(v for v in self.assigned(body, set()) if v in env and v != "$reader")
+            if not mutated:
+                raise Untranslatable("for loop without a state variable")
+            st_coq = "(" + " * ".join(coq_of(env[v][1], self.defs_for_types) for v in mutated) + ")"
+            r_coq = coq_of(self.rty, self.defs_for_types) if self.rty is not None else None
+            if r_coq is None:
+                raise Untranslatable("for loop in a function whose result type is unknown")
+            kname = self.fresh("forbody")
+            px = self.fresh(pat[1])
+            ps = [self.fresh(v) for v in mutated]
+            envb = dict(env)
+            envb[pat[1]] = (px, lt2[1])
+            for v, nm in zip(mutated, ps):
+                envb[v] = (nm, env[v][1])
+            rt = "@PLAIN:(%s + %s)@" % (st_coq, r_coq)
+            saved_rt, saved_wrap = getattr(self, "cur_rt", None), self.ret_wrap
+            self.cur_rt, self.ret_wrap = rt, "ret_inr"
+            try:
+                tup = lambda envx: ", ".join(envx[v][0] for v in mutated)
+                stm = list(body[1]) + ([("expr", body[2])] if body[2] is not None else [])
+                body_code = self.stmts(stm, 0, None, envb, lambda a, t, env2: "Ok (inl (%s))" % tup(env2), None)
+            finally:
+                self.cur_rt, self.ret_wrap = saved_rt, saved_wrap
+            callf = self.lift(kname, [(px, lt2[1])], mutated, ps, env, body_code, rt=rt)
+            call = callf([px], {v: (nm, None) for v, nm in zip(mutated, ps)})
+            outs = [self.fresh(v) for v in mutated]
+            env3 = dict(env)
+            for v, nm in zip(mutated, outs):
+                env3[v] = (nm, env[v][1])
+            x, s_, r_ = self.fresh("x"), self.fresh("s"), self.fresh("r")
+            spat = "(%s)" % ", ".join(ps) if len(ps) > 1 else ps[0]
+            opat = "(%s)" % ", ".join(outs) if len(outs) > 1 else outs[0]
+            cur = "(%s)" % ", ".join(env[v][0] for v in mutated) if len(mutated) > 1 else env[mutated[0]][0]
+            return ("let* %s := for_each_ret (fun %s %s => let '%s := %s in %s) %s %s in\n  match %s with\n  | inr %s => Ok %s\n  | inl %s =>\n  %s\n  end"
+                    % (x, px, s_, spat, s_, call, la, cur, x, r_, r_, opat, rest(env3)))
+        src_l = it
+        if src_l[0] == "mcall" and src_l[2] == "iter" and not src_l[3]:
+            src_l = src_l[1]
+        if src_l[0] == "ref":
+            src_l = src_l[1]
+        return self.expr(src_l, env, on_l)
 
     def assigned_or_planes(self, node):
         acc = self.assigned(node, set())
@@ -1785,6 +1992,26 @@ class PEmitter:
 
     def match_expr(self, e, env, k, want):
         scrut, arms = e[1], e[2]
+        if scrut[0] == "tuple" and len(scrut[1]) == 2 and all(p[0] == "ptuple" and len(p[1]) == 2 and all(q[0] == "pbool" for q in p[1]) and g is None
+                                                                 for p, g, _ in arms) and len(arms) == 4 \
+                and {(p[1][0][1], p[1][1][1]) for p, _, _ in arms} == {(True, True), (True, False), (False, True), (False, False)} \
+                and not any(self.has_return(b) or self.assigned(b, set()) for _, _, b in arms):
+            # match (a, b) { (true, true) => .., .. }: the four arms as nested conditionals
+            body = {(p[1][0][1], p[1][1][1]): b for p, _, b in arms}
+            def on_a(a, ta, env):
+                def on_b(b, tb, env):
+                    h, codes = {}, {}
+                    for key, bd in body.items():
+                        def cap(a2, t2, env3):
+                            h["t"] = self.merge(h.get("t"), t2)
+                            return a2
+                        codes[key] = self.block(bd, env, cap, want) if bd[0] == "block" else self.expr(bd, env, cap, want)
+                        if "\n" in codes[key]:
+                            raise Untranslatable("effects inside an arm of a match on two flags")
+                    return k("(if %s then (if %s then %s else %s) else (if %s then %s else %s))"
+                             % (a, b, codes[(True, True)], codes[(True, False)], b, codes[(False, True)], codes[(False, False)]), h["t"], env)
+                return self.expr(scrut[1][1], env, on_b, "bool")
+            return self.expr(scrut[1][0], env, on_a, "bool")
         def on_scrut(a, t, env):
             t = resolve(t)
             if isinstance(t, tuple) and t[0] == "result" and a.startswith("@RES@"):
@@ -2127,6 +2354,15 @@ class PEmitter:
     # ---- return position
     def ret(self, e, env):
         """code of type res (T * reader) for `return e` / the tail expression e of a function returning Result<T>"""
+        if self.ret_wrap is not None:
+            saved, self.ret_wrap = self.ret_wrap, None
+            try:
+                inner = self.ret(e, env)
+            finally:
+                self.ret_wrap = saved
+            return "%s (%s)" % (saved, inner)
+        if e is None and self.pure and getattr(self, "out_param", None):
+            return "Ok %s" % env[self.out_param][0]
         while e[0] == "paren":
             e = e[1]
         if e[0] == "call" and e[1] == ("var", "Ok") and len(e[2]) == 1:
@@ -2258,6 +2494,8 @@ def translate_parser_fn(src, defs, name, coq_name, known, aliases, extra_params=
 
 def coq_of(t, defs):
     t = resolve(t)
+    if isinstance(t, TVar):
+        return "Z"            # an integer type still to be inferred: every integer type is Z
     if isinstance(t, str):
         if t in INTS or t in FLAGS:
             return "Z"
@@ -2441,6 +2679,7 @@ def gen_parser(repo, status, write):
     gen_state(repo, status, write)
     gen_gather(repo, status, write)
     gen_loop(repo, status, write)
+    gen_rle(repo, status, write)
 
 
 def gen_pure(repo, status, write):
@@ -2550,6 +2789,51 @@ def gen_gather(repo, status, write):
         status[key] = "ok"
     except Untranslatable as e:
         body += "(* p_gather: untranslatable: %s *)\n" % str(e).replace("*)", "* )")
+        status[key] = "untranslatable: %s" % e
+    write(fname, body)
+
+
+def gen_rle(repo, status, write):
+    """decoder/cpu/rle.rs, fn inverse_rle: the whole function (block index and bounds check, the DC-only cases, the coefficient
+    loop with its early return, the classification into Zero / Dc / Horiz / Vert / Full).  The f32 block is an integer matrix
+    in the translation: every value stored is an i16 (|v| <= 2048 after the clamp, an IntraDc level), which binary32 holds exactly."""
+    fname, rel = "GenPRle.v", "h263/src/decoder/cpu/rle.rs"
+    body = ("(* GENERATED by tools/rs2v.py (rs2v_parser) from %s -- do not edit. *)\n"
+            "From H263V Require Import base.Prelude base.Checked model.Types model.Tables model.Reader model.Header model.Syntax model.Recon.\n"
+            "Create HintDb pgenrle.\n\n"
+            "(* m[y][x] = v on the 8x8 block with computed indices: out of bounds panics *)\n"
+            "Definition mat_set_c (m : list (list Z)) (x y v : Z) : res (list (list Z)) :=\n"
+            "  if (0 <=? x) && (x <? 8) && (0 <=? y) && (y <? 8) then Ok (mat_set m x y v) else Panic PIndex.\n\n" % rel)
+    key = "parser.p_inverse_rle"
+    try:
+        src = Source(repo, rel)
+        defs = Defs(repo)
+        params, ret, fbody = find_fn_generic(src.toks, "inverse_rle")
+        if [pn for pn, _ in params] != ["encoded_block", "levels", "pos", "blk_per_line", "quant"] or ret is not None:
+            raise Untranslatable("signature of inverse_rle")
+        em = PEmitter(defs, {}, {})
+        em.pure = True
+        em.fname = "p_inverse_rle"
+        em.rty = ("list", "DecodedDctBlock")
+        em.out_param = "levels"
+        em.static_lists = {"DEZIGZAG_MAPPING": ("dezigzag_mapping", ("tup", ["u8", "u8"]))}
+        env = {"encoded_block": ("a_block", "Block"), "levels": ("a_levels", ("list", "DecodedDctBlock")),
+               "pos": ("a_pos", ("tup", ["usize", "usize"])), "blk_per_line": ("a_bpl", "usize"), "quant": ("a_quant", "u8"),
+               "$reader": ("tt", "reader")}
+        stm = list(fbody[1]) + ([("expr", fbody[2])] if fbody[2] is not None else [])
+        code = em.stmts(stm, 0, None, env, lambda a, t, envx: "Ok %s" % envx["levels"][0], None)
+        rt = "(list dct_block)"
+        lt, ln, code = em.resolve_lifted(code, rt)
+        # a function without a reader: the reader slot of the emitter's tuples holds tt
+        fixrt = lambda l: l.replace("res (%s * reader)" % rt, "res %s" % rt).replace("(tt : reader)", "(tt : unit)")
+        body += "".join(fixrt(em.finish(l)) + "\n" for l in lt)
+        for n in ln:
+            body += "#[global] Hint Unfold %s : pgenrle.\n" % n
+        body += ("\nDefinition p_inverse_rle (a_block : block) (a_levels : list dct_block) (a_pos : Z * Z) (a_bpl a_quant : Z) : res (list dct_block) :=\n  %s.\n"
+                 % em.finish(code))
+        status[key] = "ok"
+    except Untranslatable as e:
+        body += "(* p_inverse_rle: untranslatable: %s *)\n" % str(e).replace("*)", "* )")
         status[key] = "untranslatable: %s" % e
     write(fname, body)
 
@@ -2782,7 +3066,10 @@ def gen_state(repo, status, write):
     fname, rel = "GenPState.v", "h263/src/decoder/state.rs"
     body = ("(* GENERATED by tools/rs2v.py (rs2v_parser) from %s -- do not edit. *)\n"
             "From Coq Require Import String.\n"
-            "From H263V Require Import base.Prelude base.Checked model.Types model.Tables model.Reader model.Header model.Syntax model.Recon model.Decoder.\n\n" % rel)
+            "From H263V Require Import base.Prelude base.Checked model.Types model.Tables model.Reader model.Header model.Syntax model.Recon model.Decoder.\n\n"
+            "(* HashMap::remove_entry on the picture map: the entry of a key, taken out of the map *)\n"
+            "Definition pm_remove_entry (m : pmap) (k : Z) : option (Z * decoded_picture) * pmap :=\n"
+            "  match pm_get m k with Some v => (Some (k, v), pm_remove m k) | None => (None, m) end.\n\n" % rel)
     keys = ["parser.p_store_picture", "parser.p_prefix_state_writes"]
     try:
         src = Source(repo, rel)
@@ -2859,6 +3146,29 @@ def gen_state(repo, status, write):
             status[key] = "ok"
         except Untranslatable as ex:
             body += "\n(* p_prologue: untranslatable: %s *)\n" % str(ex).replace("*)", "* )")
+            status[key] = "untranslatable: %s" % ex
+        # cleanup_buffers
+        key = "parser.p_cleanup_buffers"
+        try:
+            prm, rt, fb = find_fn_generic(src.toks, "cleanup_buffers")
+            em4 = PEmitter(defs, {}, {})
+            em4.pure = True
+            em4.fname, em4.rty = "p_cleanup_buffers", None
+            env4 = {"self": ("a_self", "H263State"),
+                    "self.last_picture": ("(last_picture a_self)", ("opt", "u16")),
+                    "self.reference_picture": ("(reference_picture a_self)", ("opt", "u16")),
+                    "self.reference_states": ("(reference_states a_self)", "PictureMap"), "$reader": ("tt", "reader")}
+            def fin4(a, t, env2):
+                return "mkState (st_opts a_self) %s %s (running_options a_self) %s" % (
+                    env2["self.last_picture"][0], env2["self.reference_picture"][0], env2["self.reference_states"][0])
+            stm = list(fb[1]) + ([("expr", fb[2])] if fb[2] is not None else [])
+            code4 = em4.stmts(stm, 0, None, env4, fin4, None)
+            if em4.lifted:
+                raise Untranslatable("control flow with early exits in cleanup_buffers")
+            body += "\nDefinition p_cleanup_buffers (a_self : state) : state :=\n  %s.\n" % em4.finish(code4)
+            status[key] = "ok"
+        except Untranslatable as ex:
+            body += "\n(* p_cleanup_buffers: untranslatable: %s *)\n" % str(ex).replace("*)", "* )")
             status[key] = "untranslatable: %s" % ex
         # the two look-ups of the state
         for fn in ("get_last_picture", "get_reference_picture"):
